@@ -118,7 +118,7 @@ func Load(repoDir string, patterns []string, overlay map[string][]byte, tags str
 	e := &Engine{
 		RepoDir: repoDir, Prog: prog, Sizes: types.SizesFor("gc", "amd64"),
 		MaxDepth: 120, MaxSteps: 4_000_000, MaxArray: 1 << 17, MaxIte: 512, LoopBound: 300, MaxLen: 64,
-		SolverKind: "z3", TimeoutMs: 10000, Workers: 8, MaxPaths: 200000,
+		SolverKind: "z3-new", TimeoutMs: 10000, Workers: 8, MaxPaths: 200000,
 		SkipInit:   map[string]bool{},
 		LazySlices: true, SamplesPerHarness: 2, PathTimeout: 120 * time.Second,
 		intrinsics: map[string]intrinsicFn{},
